@@ -222,41 +222,45 @@ class Ctx:
         Hp = Poly({m: c // K for m, c in H.items()}); Lp = Poly(L)
         if not L: return Hp, ZERO
         llo, lhi = self.interval(Lp)
-        if not (llo >= 0 and lhi < K):
-            # choose the representative of L modulo 2^k whose range lies in [0,2^k) or, failing that, in [-2^k,2^k)
-            j = llo >> k
-            if lhi - j * K >= K:
-                j += 1
-                if not (llo - j * K >= -K and lhi - j * K < K): j = None
-            if j:
-                Lp = Lp.addc(-j * K); Hp = Hp.addc(j); llo -= j * K; lhi -= j * K; L = Lp.t
         if llo >= 0 and lhi < K: return Hp, Lp
-        # structural rule: L = A + 2^j * B with 0 <= A < 2^j
-        if llo >= 0:
-            vals = sorted(set((abs(c) & -abs(c)).bit_length() - 1 for c in L.values()), reverse=True)
-            for j in vals:
-                if j == 0 or j >= k: continue
-                J = 1 << j
-                A = Poly({m: c for m, c in L.items() if c % J != 0})
-                B = Poly({m: c // J for m, c in L.items() if c % J == 0})
-                if A.is_zero():
-                    alo = ahi = 0
-                else:
-                    alo, ahi = self.interval(A)
-                blo, _ = self.interval(B)
-                if alo >= 0 and ahi < J and blo >= 0:
-                    qB, rB = self.cut(B, k - j)
-                    return Hp + qB, A + rB.scale(J)
-            # single variable with coefficient 1 (or 2^j handled above with A = 0)
-            if len(L) == 1:
-                (m, c), = L.items()
-                if len(m) == 1 and c > 0 and (c & (c - 1)) == 0:
-                    j = c.bit_length() - 1
-                    qv, rv = self.split_var(m[0], k - j)
-                    return Hp + qv, rv.scale(c)
+        r = self._structural_cut(Hp, Lp, L, k, llo)
+        if r is not None: return r
+        # choose the representative of L modulo 2^k whose range lies in [0,2^k) or, failing that, in [-2^k,2^k)
+        j = llo >> k
+        if lhi - j * K >= K:
+            j += 1
+            if not (llo - j * K >= -K and lhi - j * K < K): j = None
+        if j:
+            Lp = Lp.addc(-j * K); Hp = Hp.addc(j); llo -= j * K; lhi -= j * K; L = Lp.t
+            if llo >= 0 and lhi < K: return Hp, Lp
+            r = self._structural_cut(Hp, Lp, L, k, llo)
+            if r is not None: return r
         # generic: chained digit decomposition of L
         q, r = self._generic_cut(Lp, k)
         return Hp + q, r
+
+    def _structural_cut(self, Hp, Lp, L, k, llo):
+        """exact cuts that need no new definitional equation: L = A + 2^j*B with 0 <= A < 2^j, or a single variable"""
+        if llo < 0: return None
+        vals = sorted(set((abs(c) & -abs(c)).bit_length() - 1 for c in L.values()), reverse=True)
+        for j in vals:
+            if j == 0 or j >= k: continue
+            J = 1 << j
+            A = Poly({m: c for m, c in L.items() if c % J != 0})
+            B = Poly({m: c // J for m, c in L.items() if c % J == 0})
+            if A.is_zero(): alo = ahi = 0
+            else: alo, ahi = self.interval(A)
+            blo, _ = self.interval(B)
+            if alo >= 0 and ahi < J and blo >= 0:
+                qB, rB = self.cut(B, k - j)
+                return Hp + qB, A + rB.scale(J)
+        if len(L) == 1:
+            (m, c), = L.items()
+            if len(m) == 1 and c > 0 and (c & (c - 1)) == 0:
+                j = c.bit_length() - 1
+                qv, rv = self.split_var(m[0], k - j)
+                return Hp + qv, rv.scale(c)
+        return None
 
     def sign_bool(self, L, K=None):
         """Poly (0/1 variable) equal to [L < 0]; one variable per distinct L"""
